@@ -68,6 +68,7 @@ PROPS["C13"] = {
     "level_text": "Invariants of an unbounded small-step model of the WebSocket client (any number of subscriptions, server frames of any kind/order/multiplicity, faults, connection loss, any schedule): channels closed exactly when marked, the reader never blocks for good on the error channel, the client mutex is held across a scheduling point only in handleErr, every API call can always take its next step (or waits only for a reader step that is enabled and frees the mutex), and no goroutine panics unless the application ends a subscription while one of its messages is between lookup and channel send (that residual sender/closer race is refuted in the model and listed as an open finding). Tied to websocket.go/subscription.go by per-step in-kernel replay of every explored schedule of the real client under a deterministic controller.",
     "level_note": "partial: Go memory-model races are covered by the lock-set invariant on the model and by the translator's lock-discipline fact about subscriptionMap (read from the source on every run), not by a theorem about Go's memory model; no -race runs; timer behaviour not modelled; the residual send-on-closed-channel race is an open finding.",
     "theorem_status": {"C13_map_methods_hold_the_lock": "proved (translator fact: lock discipline of subscriptionMap read from the source)",
+                       "C13_map_methods_do_not_reenter_the_lock": "proved (translator fact: no subscriptionMap method calls a lock-acquiring method while holding the lock)",
                        "C13_no_panic_partial": "proved (hypothesis: no end-of-subscription while its message is in flight)",
                        "C13_no_panic_refuted": "refuted full statement (witness schedule) - open finding",
                        "C13_api_returns": "proved", "C13_reader_never_stuck": "proved", "C13_lockset": "proved",
